@@ -4,12 +4,20 @@
    the operations, and the command list the implementation issued per
    operation.
 
-   first component : the model (Render/Frame.v) issues the same commands;
+   first component : the model (Render/Frame.v) issues the same commands, the
+   class tags of the harness are the Coq-side classes, AND the part of the
+   property that holds in every case, known classes included, holds on the
+   IMPLEMENTATION's commands (Spec.resume_run = C01_history_resumes: judging
+   is suspended only from the frame of an overlapping surface to the next
+   forced repaint; Loop.loop_spec false = C01_render_loop: every delivery is
+   judged, tolerating only the placements of the last stale drop).  A
+   known-class case is accepted only when this component is true
+   (require_agree);
    second component: PROPERTY PREDICATE, computed on the specification side
    only — the reference terminal (Render/Screen.v) executes the
    IMPLEMENTATION's commands from a blank screen; after every frame it must
    display exactly [show S] for the surface S drawn for that frame, and no
-   command may be a protocol error. *)
+   command may be a protocol error (fails inside the known classes only). *)
 From Coq Require Import List NArith Bool Arith.
 From SNT Require Export Base.Report Render.Cell Render.Screen Render.Frame Render.Domain Render.Spec Render.Loop.
 Import ListNotations.
@@ -113,7 +121,9 @@ Definition c01_check (k : c01_case) : bool * bool :=
         && Bool.eqb oii (any (fun k => fst (fst k)))
         && Bool.eqb owi (any (fun k => snd (fst k)))
         && Bool.eqb oww (any (fun k => snd k))
-        && Bool.eqb (oii || owi || oww) (dom && ovl),
+        && Bool.eqb (oii || owi || oww) (dom && ovl)
+        (* the classes cut to their extent: judged again after the next forced repaint (C01_history_resumes) *)
+        && (negb dom || resume_run o h w (blank_screen h w) (gmake h w cell_default) (Some []) ops impl),
         (* outside the property's domain (zero-width characters, a wide character in the
            last column, empty images) only the agreement of model and code is checked *)
         (negb dom || spec_run o h w (blank_screen h w) (gmake h w cell_default) ops impl)
@@ -138,11 +148,14 @@ Definition c01_check (k : c01_case) : bool * bool :=
       let w := N.to_nat wN in
       let o := mk_oracle widths isizes fsp fer ers in
       let isgood := forallb (fun it => in_domain o h w (it_draw it) && no_image_overlap o h w (it_draw it)) its in
-      let '(ok, st) := loop_spec o h w (blank_screen h w) [] (gmake h w cell_default) its impl in
+      let '(ok, st) := loop_spec o h w true (blank_screen h w) [] [] (gmake h w cell_default) its impl in
       ( list_eqb (fun a b => Bool.eqb (fst a) (fst b) && list_eqb cmd_eqb (snd a) (snd b))
                  (loop_model o (rnew h w false) 0 its) impl
-        && Bool.eqb good isgood && Bool.eqb stale (isgood && st),
-        (* every delivered frame is displayed right (C01_render_loop on the implementation's commands) *)
+        && Bool.eqb good isgood && Bool.eqb stale (isgood && st)
+        (* every delivery is judged, tolerating only the placements of the last stale drop (C01_render_loop) *)
+        && (negb isgood
+            || fst (loop_spec o h w false (blank_screen h w) [] [] (gmake h w cell_default) its impl)),
+        (* every delivered frame is displayed exactly (C01_render_loop_exact on the implementation's commands) *)
         negb isgood || ok )
   end.
 
